@@ -51,6 +51,13 @@ type EvalCase struct {
 	Impl      h.Outcome
 	Model     h.Outcome
 	ModelLine string
+	// Proj, when set, is the level-P projection of this case (DESIGN §2.3): only
+	// Proj(impl) and Proj(model) are compared; a difference in the full value is
+	// then counted as level-D drift.
+	Proj func(h.Outcome) string
+	// Check, when set, evaluates the property's relation on the implementation's
+	// own output (an oracle independent of the model); "" = holds.
+	Check func(h.Outcome) string
 }
 
 type Ctx struct {
@@ -124,6 +131,7 @@ func (c *Ctx) RunEvalCases() {
 		return
 	}
 	lines := make([]string, len(c.Cases))
+	batch := make([]h.ImplCase, len(c.Cases))
 	for i, ec := range c.Cases {
 		// the carrier builder must reproduce the description it was given
 		val := h.Build(ec.Data)
@@ -132,8 +140,11 @@ func (c *Ctx) RunEvalCases() {
 			fmt.Fprintf(os.Stderr, "harness self-check: description not reproduced for %s: %v\n  want %s\n  got  %v\n", ec.Query, err, ec.Data, back)
 			os.Exit(3)
 		}
-		ec.Impl = h.RunImpl(ec.Query, val)
+		batch[i] = h.ImplCase{Query: ec.Query, Data: ec.Data}
 		lines[i] = h.EvalLine(ec.Query, ec.Data, ec.Eng)
+	}
+	for i, o := range h.RunImplBatch(batch, 12) {
+		c.Cases[i].Impl = o
 	}
 	var outs []string
 	if c.Proofs.ModelBuilt {
@@ -151,6 +162,13 @@ func (c *Ctx) RunEvalCases() {
 		key := ec.Query + "\x00" + ec.Data.String()
 		if ec.Nontriv {
 			c.Distinct[key] = true
+		}
+		if ec.Check != nil {
+			if why := ec.Check(ec.Impl); why != "" {
+				c.Violation("relation", fmt.Sprintf("query %q: %s (implementation: %s)", ec.Query, why, short(ec.Impl.String())),
+					map[string]any{"kind": "eval", "query": ec.Query, "data": ec.Data.String(), "engines": ec.Eng, "err_class": ec.ErrClass,
+						"implementation": ec.Impl.String(), "impl_note": ec.Impl.Note, "oracle": why, "tag": ec.Tag})
+			}
 		}
 		if outs == nil {
 			continue
@@ -170,6 +188,15 @@ func (c *Ctx) RunEvalCases() {
 			os.Exit(3)
 		}
 		io, mo := obs(ec.Impl, ec.ErrClass), obs(ec.Model, ec.ErrClass)
+		if ec.Proj != nil {
+			if io != mo {
+				c.DriftN++
+				if len(c.Drift) < 3 {
+					c.Drift = append(c.Drift, fmt.Sprintf("query %q on %s: implementation %s, model %s", ec.Query, short(ec.Data.String()), short(io), short(mo)))
+				}
+			}
+			io, mo = ec.Proj(ec.Impl), ec.Proj(ec.Model)
+		}
 		if io != mo {
 			c.Violation("mismatch", fmt.Sprintf("query %q: implementation %s, model/spec %s", ec.Query, short(io), short(mo)),
 				map[string]any{"kind": "eval", "query": ec.Query, "data": ec.Data.String(), "engines": ec.Eng, "err_class": ec.ErrClass,
@@ -270,7 +297,12 @@ func main() {
 	root := flag.String("root", "/verif", "verif root")
 	proofs := flag.String("proofs", "", "proof status json written by bin/check")
 	replay := flag.String("replay", "", "replay file")
+	worker := flag.Bool("worker", false, "internal: run as an implementation worker")
 	flag.Parse()
+	if *worker {
+		h.WorkerMain()
+		return
+	}
 	start := time.Now()
 
 	c := &Ctx{Prop: *prop, Tier: *tier, Seed: *seed, Rng: rand.New(rand.NewSource(*seed)), Root: *root,
